@@ -31,7 +31,7 @@ ASSUMPTIONS = ["'does not hang' is restated as bounded progress: tiny workloads 
                "loadability after failure is checked for the file_array storage (memory storages persist only at the end of a run)"]
 WATCHDOG = 60
 EXC = [["ValueError", "injected msg"], ["KeyError", "injected-key"], ["Bare"], ["ProbeError", "pa", 7]]
-MAP_MODES = ["seq", "thread", "process", "controlled", "async-thread", "async-controlled"]
+MAP_MODES = ["seq", "thread", "process", "controlled", "async-thread", "async-controlled", "default-pool"]
 
 
 def plan(tier, seed):
@@ -121,6 +121,8 @@ def _run_map_mode(pipeline, case, mode, folder, pos_pick=None):
     try:
         if mode == "seq":
             return pipeline.map(inputs, parallel=False, **kw)
+        if mode == "default-pool":  # executor=None, parallel=True: pipefunc creates (and shuts down) its own process pool
+            return pipeline.map(inputs, parallel=True, **kw)
         if mode in ("thread", "async-thread"):
             ex = ThreadPoolExecutor(3)
         elif mode == "process":
